@@ -78,10 +78,10 @@ func C07(p *core.Program, r *core.Report) {
 	// ---- N4: a data table is cloned with all its visible descendants: what counts as visible is
 	// the documented decision list (shared with C04-V3)
 	checkVisibilityRules(p, r, "N4")
-	// ---- N5: a retained data table is cloned through GetOutputNodes: its per-node gate admits
+	// ---- N6: a retained data table is cloned through GetOutputNodes: its per-node gate admits
 	// every element that is not script/style/hidden - in particular empty cells and rows
 	// (decision-list conformance, shared with C04-V1/C05-S3)
-	checkOutputNodesGate(p, r, "N5")
+	checkOutputNodesGate(p, r, "N6")
 	// ---- N5: the stack pass is the last document filter to change content flags (shared with C08-E1)
 	checkFilterOrder(p, r, "N5")
 
